@@ -43,6 +43,9 @@ TEMPLATES = [
     ('insert-select', 'INSERT INTO int1.t1 (a, b) SELECT x, {P} FROM int1.t2 WHERE y = {P}'),
     ('update', 'UPDATE int1.t1 SET a = {P}, b = {P} WHERE c = {P}'),
     ('update-expr', 'UPDATE int1.t1 SET a = a + {P}, b = f({P}) WHERE c = {P} AND d IN ({P}, {P})'),
+    # UPDATE .. FROM (sub-select): placeholders in SET, inside the sub-select and in WHERE, in that textual order
+    ('update-from', 'UPDATE int2.t2 SET a = {P}, b = s.a + {P} FROM (SELECT p.id, p.a FROM int1.t1 AS p WHERE p.a > {P} AND p.c = {P}) AS s WHERE t2.id = s.id AND t2.d = {P}'),
+    ('update-from-set-only', 'UPDATE int2.t2 SET a = {P} FROM (SELECT p.id FROM int1.t1 AS p WHERE p.a > {P}) AS s WHERE t2.id = s.id'),
     ('case-same-conditions', 'SELECT CASE WHEN a >= {P} THEN {P} WHEN a >= {P} THEN {P} WHEN a >= {P} THEN {P} ELSE {P} END AS c FROM int1.t1'),
     ('repeated-subexpressions', 'SELECT coalesce({P}, {P}), a = {P} OR a = {P}, {P} + {P} FROM int1.t1 WHERE b = {P} AND b = {P} AND c IN ({P}, {P})'),
     ('update-unsorted', 'UPDATE int1.t1 SET c = {P}, a = {P}, b = {P}, Z = {P}, aa = {P} WHERE d = {P}'),
@@ -225,7 +228,11 @@ def run_history(text_q, text_v, vals, history):
             except (PlanningException, NotImplementedError) as e:
                 out.append(({'defect': 'later-statement-rejected', 'history': history}, {'error': str(e)[:200]}))
         else:
-            got = strip_results(list(pl.execute_steps(list(vals))))
+            handed = list(vals)
+            got = strip_results(list(pl.execute_steps(handed)))
+            # the values are the caller's: the list handed in is as it was (a caller executes again with it, or shares it)
+            if len(handed) != len(vals) or any(a is not b and not (type(a) is type(b) and a == b) for a, b in zip(handed, vals)):
+                out.append(({'defect': 'value-list-handed-in-was-changed', 'history': history}, {'handed_after': repr(handed)[:200], 'values': repr(list(vals))[:200]}))
     except (PlanningException, NotImplementedError) as e:
         if len(info['parameters']) != n:
             return 'checked', out       # consequence of the mis-count already reported
